@@ -9,3 +9,5 @@ import FinProtoc.Props.C12
 #print axioms FinProtoc.Props.dup_option_diag
 #print axioms FinProtoc.Props.good_option_ok
 #print axioms FinProtoc.Props.padchar_nul_accepted
+#print axioms FinProtoc.Props.options_table_tied
+#print axioms FinProtoc.Props.option_names_tied
